@@ -20,7 +20,11 @@ def b2a_base58(s: bytes) -> str:
 
 def a2b_base58(s: str) -> bytes:
     """Convert base58 to binary using BASE58_ALPHABET."""
-    v, prefix = to_long(BASE58_BASE, lambda c: BASE58_LOOKUP[c], s.encode("utf8"))
+    try:
+        data = s.encode("utf8")
+    except UnicodeEncodeError:
+        raise EncodingError("bad character in string %r" % s)
+    v, prefix = to_long(BASE58_BASE, lambda c: BASE58_LOOKUP[c], data)
     return from_long(v, prefix, 256, lambda x: x)
 
 
